@@ -549,6 +549,9 @@ func implementsError(t types.Type) bool {
 // exprAs translates e for a context of type to (implicit conversion of a
 // concrete error value to the error interface).
 func (c *fctx) exprAs(e ast.Expr, to types.Type) ex {
+	if id, ok := e.(*ast.Ident); ok && id.Name == "nil" && to != nil && strings.HasPrefix(c.t.leanType(to), "(List") {
+		return ex{code: "[]"} // a nil slice is the empty list
+	}
 	if to != nil && c.t.isAbstract(to) && c.t.valType(to) == "AbsPtr" {
 		if id, ok := e.(*ast.Ident); ok && id.Name == "nil" {
 			return ex{code: "false"}
